@@ -172,6 +172,24 @@ func before(a, b ssa.Instruction) bool {
 
 // load evaluates *addr.
 func (ev *Eval) load(u *ssa.UnOp) *Term {
+	// an element of a container that another activation made and filled (a table returned by an inlined helper): this
+	// activation has no stores into it, so its own index would read "never written" — ask the owner, with the index
+	// evaluated here
+	if ia, ok := u.X.(*ssa.IndexAddr); ok {
+		if _, _, syn := resolveSyntactic(ia); !syn {
+			if base := ev.op(ia.X, ia); base.K == KMake {
+				if owner := ev.E.objOwner[base.N]; owner != nil && owner != ev {
+					idxT := ev.opIn(ia.Index, ia.Block())
+					if obj, ok := ev.E.objBySerial[base.N]; ok {
+						if t := owner.elementAt(obj, idxT); t != nil {
+							return t
+						}
+					}
+					return Idx(base, idxT)
+				}
+			}
+		}
+	}
 	obj, path, ok := ev.resolveAddr(u.X)
 	if !ok {
 		// not a tracked cell: pointers are transparent
@@ -718,3 +736,38 @@ func (ev *Eval) TermIn(v ssa.Value, b *ssa.BasicBlock) *Term { return ev.opIn(v,
 
 // InnermostLoop returns the innermost loop of this activation containing b.
 func (ev *Eval) InnermostLoop(b *ssa.BasicBlock) *Loop { return innermost(ev.Loops(), b) }
+
+// elementAt: obj (a make()d container of this activation) is filled by exactly one store c[i] = f(i) under an induction
+// variable running 0..n-1 and by nothing else: its element at idx is f(idx) (for any idx at which the access does not
+// panic). nil when the container is filled in any other way.
+func (ev *Eval) elementAt(obj ssa.Value, idx *Term) *Term {
+	ev.phase2()
+	var hit *storeRec
+	n := 0
+	for _, s := range ev.index().byObj[obj] {
+		n++
+		hit = s
+	}
+	if n != 1 || len(hit.path) != 1 || hit.path[0].field != "" {
+		return nil
+	}
+	it := ev.pathTerm(&hit.path[0])
+	if it == nil || it.K != KIndVar {
+		return nil
+	}
+	rng, ok := it.Loop.Range(it)
+	if !ok {
+		return nil
+	}
+	if _, ok := rng.CoversZeroTo(); !ok {
+		return nil
+	}
+	v := ev.Resolve(ev.op(hit.val, hit.instr))
+	loop := it.Loop
+	return Subst(v, func(x *Term) *Term {
+		if x.K == KIndVar && x.Loop == loop {
+			return idx
+		}
+		return nil
+	})
+}
